@@ -101,9 +101,8 @@ bool RouterSession::extraOp(const Json &op, const std::string &o, std::string &e
         if (it == conns.end() || !it->second.alive || it->second.hyperedge || !it->second.ref) return false;
         if (!useTransactions && armed("C11")) return false;      // runs no implicit transaction in immediate mode: nothing to judge (see addConn)
         Cn &c = it->second;
-        c.checkpoints.clear();
-        for (auto &q : op["checkpoints"].a) c.checkpoints.push_back(Pt{q[0].num(), q[1].num()});
-        ex = guardedLocal([&] { std::vector<Checkpoint> cps; for (auto &q : c.checkpoints) cps.push_back(Checkpoint(Point(q.x, q.y))); c.ref->setRoutingCheckpoints(cps); });
+        c.setCheckpointsFrom(op["checkpoints"]);
+        ex = guardedLocal([&] { std::vector<Checkpoint> cps = c.mkCheckpoints(); c.ref->setRoutingCheckpoints(cps); });
         // setRoutingCheckpoints() does not invalidate an existing route ("when routing, the connector will attempt to visit..."):
         // the new list is judged from the next time the connector is actually rerouted (it gets its callback)
         if (c.ref->route().size() >= 2) c.cpStale = true;
@@ -665,7 +664,12 @@ static Json genNudgeSession(Rng &r, const std::string &tier) {
             // nothing between the checkpoint and the destination either
             for (auto &ob : rs) { double lo = std::min(row ? cp.x : cp.y, row ? b.x : b.y), hi = std::max(row ? cp.x : cp.y, row ? b.x : b.y); double c0 = row ? b.y : b.x;
                 if ((row ? ob.y - 15 - buf : ob.x - 15 - buf) <= c0 && c0 <= (row ? ob.y + ob.h + 15 + buf : ob.x + ob.w + 15 + buf) && (row ? ob.x + ob.w : ob.y + ob.h) >= lo && (row ? ob.x : ob.y) <= hi) ok = false; }
-            if (ok) { Json cps = Json::arr(); cps.push(ptJ(cp)); o.set("checkpoints", cps); }
+            if (ok) {
+                Json cps = Json::arr(); Json cj = ptJ(cp);
+                // (arrival / departure masks are supported by the executor -- entries [x, y, arrival, departure] -- but not generated:
+                //  their meaning for vertical approaches could not be established from the documentation alone)
+                cps.push(cj); o.set("checkpoints", cps);
+            }
         }
         ops.push(o);
     }
